@@ -124,3 +124,21 @@ extern "C" void h_pool_prio() {
     }
     VP_REACH("pool_prio");
 }
+
+// retiring worker vs. a new task: with min 0 / max 1 the only worker retires when it finds nothing to do; a task submitted at any moment
+// around that must still get a worker. The loop thread waits for each task's completion (a task nobody executes = deadlock reported by the engine).
+static int g_done_cnt;
+extern "C" void h_pool_retire() {
+    g_done_cnt = 0;
+    SafeLoop loop; ThreadPool tp(&loop);
+    VP_ASSERT(tp.initialize(0, 1), "initialize");
+    for (int k = 1; k <= 2; k++) {
+        ThreadPool::TaskToken t = tp.execute([] { std::unique_lock<std::mutex> lk(g_m); g_done_cnt++; g_cv.notify_all(); });
+        VP_ASSERT(!t.isNull(), "task accepted");
+        { std::unique_lock<std::mutex> lk(g_m); g_cv.wait(lk, [k] { return g_done_cnt >= k; }); }       // the application waits for the result
+        loop.drain();
+    }
+    tp.cleanup(); loop.drain();
+    VP_ASSERT(g_done_cnt == 2, "both tasks ran exactly once");
+    VP_REACH("pool_retire");
+}
